@@ -13,6 +13,7 @@ package main
 import (
 	"bytes"
 	"fmt"
+	"iter"
 	"runtime"
 	"sort"
 	"strconv"
@@ -28,6 +29,21 @@ import (
 
 type Obj struct {
 	ID uint64
+}
+
+// every object also has one key in an LPM index (the 16-bit prefix of its id), so that a write changes both
+// the radix primary index and the LPM index
+func lpmKeys(o *Obj) iter.Seq2[[]byte, statedb.PrefixLen] {
+	return func(yield func([]byte, statedb.PrefixLen) bool) {
+		yield([]byte{byte(o.ID >> 8), byte(o.ID)}, 16)
+	}
+}
+
+var lpmIndex = statedb.LPMIndex[*Obj]{
+	Name:       "lpm",
+	FromObject: lpmKeys,
+	FromString: func(string) ([]byte, statedb.PrefixLen, error) { return nil, 0, fmt.Errorf("unsupported") },
+	Unique:     true,
 }
 
 func (o *Obj) TableHeader() []string { return []string{"ID"} }
@@ -288,7 +304,7 @@ func (e *eng) run(a *actorT) {
 	}()
 	switch a.kind {
 	case "reg":
-		t, err := statedb.NewTable(e.db, a.name, idIndex)
+		t, err := statedb.NewTable(e.db, a.name, idIndex, lpmIndex)
 		if err != nil {
 			a.ret = "err:" + hx.PanicClass(err.Error())
 			return
@@ -436,7 +452,7 @@ func (e *eng) obs() string {
 	return fmt.Sprintf("root=[%s] w=%s en=[%s]", root, wb.String(), strings.Join(en, ","))
 }
 
-const tag = "P:C02,C05,C06,C10,C19"
+const tag = "P:C02,C05,C06,C09,C10,C19"
 
 func (e *eng) Op(f []string, line string, out *hx.Out) {
 	switch f[0] {
@@ -444,7 +460,7 @@ func (e *eng) Op(f []string, line string, out *hx.Out) {
 		n := 0
 		fmt.Sscan(f[1], &n)
 		for i := 0; i < n; i++ {
-			t, err := statedb.NewTable(e.db, fmt.Sprintf("t%d", i), idIndex)
+			t, err := statedb.NewTable(e.db, fmt.Sprintf("t%d", i), idIndex, lpmIndex)
 			if err != nil {
 				panic(err)
 			}
@@ -463,7 +479,7 @@ func (e *eng) Op(f []string, line string, out *hx.Out) {
 		e.byName[a.name] = a
 		e.mu.Unlock()
 		out.P("M:* ok")
-	case "watch", "iwatch":
+	case "watch", "iwatch", "lwatch":
 		t := 0
 		fmt.Sscan(f[1], &t)
 		e.mu.Lock()
@@ -477,9 +493,13 @@ func (e *eng) Op(f []string, line string, out *hx.Out) {
 		var ch <-chan struct{}
 		func() {
 			defer func() { recover() }()
-			if f[0] == "watch" {
+			switch f[0] {
+			case "watch":
 				_, ch = e.tabs[t].AllWatch(rtxn)
-			} else {
+			case "lwatch":
+				// the watch channel of a query through the LPM index (index-wide channel)
+				_, ch = e.tabs[t].PrefixWatch(rtxn, lpmIndex.Query([]byte{}, 0))
+			default:
 				_, ch = e.tabs[t].Initialized(rtxn)
 			}
 		}()
@@ -488,7 +508,7 @@ func (e *eng) Op(f []string, line string, out *hx.Out) {
 			return
 		}
 		bad := ""
-		if f[0] == "watch" && isClosed(ch) {
+		if f[0] != "iwatch" && isClosed(ch) {
 			bad = " !BAD:C06:closed-when-handed-out"
 		}
 		e.mu.Lock()
